@@ -307,7 +307,26 @@ def run_shard(args):
                 body = f'<?xml version="1.0"?><D:expand-property {X.NS}><D:property name="current-user-principal"><D:property name="displayname"/></D:property></D:expand-property>'.encode()
             else:
                 method = m
+            if rng.random() < 0.1:
+                # the name of a new member chosen by the request's content instead of its URL: POST (RFC 5995 add-member)
+                # to an existing collection with a UID / a Slug header that spell a path
+                ups_ = rng.randint(1, 7)
+                tail_ = rng.choice(["pwned-%d" % i, "canary/secret.txt", "outside.ics", "sibling-cal/m.ics", "root-archive/kept.txt"])
+                hostile = rng.choice(["../" * ups_ + tail_, "/" + tail_, os.path.join(base, tail_), "..%2F" * ups_ + tail_.replace("/", "%2F"), "%2E%2E%2F" * ups_ + tail_,
+                                      "x/" + "../" * (ups_ + 1) + tail_, "..\\" * ups_ + tail_, "%2F" + os.path.join(base, tail_).strip("/").replace("/", "%2F")])
+                shape = "post-with-a-path-in-uid-or-slug"
+                method = "POST"
+                kind_ = rng.choice(["uid", "slug", "both"])
+                col_, ct_ = rng.choice([("/user/calendars/cal0/", "text/calendar"), ("/user/contacts/ab0/", "text/vcard"), ("/user/calendars/calendar/", "text/calendar")])
+                uid_ = hostile if kind_ in ("uid", "both") else "evil-%d" % i
+                body = gen.ical(rng, uid_, "evil", rich=False) if ct_ == "text/calendar" else gen.vcard(rng, uid_, "evil", rich=False)
+                hs = [("Content-Type", ct_)] + ([("Slug", hostile)] if kind_ in ("slug", "both") else [])
+                target = w.url(col_)
+                res.count("posts_with_a_path_in_uid_or_slug")
+                res.count("posts_with_a_path_in:" + kind_)
             s, r = w.call("c13", method, target, hs, body, record=False)
+            if shape == "post-with-a-path-in-uid-or-slug" and W.World.success(s.status):
+                res.count("posts_with_a_path_in_uid_or_slug_accepted")
             tried += 1
             res.evaluations += 1
             reqlog.append({"method": method, "target": target[:300], "status": s.status})
@@ -468,6 +487,7 @@ def check(tier, seed, t0):
     guards.append(("shards whose data directory lies inside another git work tree", c.get("shards_with_outer_repository", 0), 4))
     for sh in ("dots-after-a-segment-with-url-syntax", "ordinary-below-plain-directory", "up-from-root", "up-from-collection", "up-from-member", "encoded-slash", "absolute-form", "double-slash", "double-encoded-last-segment", "leading-slashes", "compat-chars-last-segment", "backslash", "nul"):
         guards.append(("targets of shape " + sh, c.get("shape:" + sh, 0), 200))
+    guards.append(("accepted POSTs whose UID or Slug header spells a path", c.get("posts_with_a_path_in_uid_or_slug_accepted", 0), 300))
     if th:
         guards.append(("strace calls judged", c.get("strace_calls_judged", 0), 10000))
     return common.finish(PROP, tier, seed, "exploration", merged, failures, RULE, t0, guards=guards,
